@@ -249,7 +249,54 @@ class C12Oracle(worldprop.Oracle):
             if observable_doc(src) != sb:
                 self.fail(idx, "changing the bundle made by add_bundle(document) changed the source document", cls=cls.__name__)
 
+    def bundle_unified(self, idx):
+        """unified() of a bundle that lives in a document returns a bundle of its own: no object of it is reached from the
+        source, its manager has no parent in the source, and what its names resolve to does not follow later declarations
+        of the source document (nor the other way round) — tried on a deep copy of the world"""
+        import copy
+        docs = copy.deepcopy(self.im.docs)
+        for di, d in enumerate(docs):
+            for bi, b in enumerate(list(d._bundles.values())[:3]):
+                try:
+                    u = b.unified()
+                except Exception:
+                    continue                                   # conflicting records: C08's business
+                cl_u = {id(u), id(u._records), id(u._id_map), id(u._namespaces), id(u._namespaces._namespaces),
+                        id(u._namespaces._uri_map), id(u._namespaces._rename_map), id(u._namespaces._prefix_renamed_map)}
+                for r in u._records:
+                    cl_u |= {id(r), id(r._attributes)} | {id(v) for v in r._attributes.values()}
+                if cl_u & _closure(d):
+                    self.fail(idx, "bundle.unified() shares objects with the source document", doc=di, bundle=bi)
+                probes = ["c12late:thing", "c12bare"]
+                def resolve(c):
+                    out = []
+                    for p in probes:
+                        try:
+                            q = copy.deepcopy(c).valid_qualified_name(p)
+                        except Exception as e:
+                            q = type(e).__name__
+                        out.append(q.uri if hasattr(q, "uri") else q)
+                    return out
+                before_u, before_src = resolve(u), (observable_doc(d))
+                d.add_namespace("c12late", "http://late.test/ns#")
+                if d._namespaces._default is None:
+                    d.set_default_namespace("http://late-default.test/")
+                if resolve(u) != before_u:
+                    self.fail(idx, "declaring a namespace / a default namespace on the source document changed what names resolve "
+                                   "to in the bundle bundle.unified() returned", doc=di, bundle=bi, before=before_u, after=resolve(u))
+                mid = observable_doc(d)
+                try:
+                    u.add_namespace("c12res", "http://result.test/")
+                    u.set_default_namespace("http://result-default.test/")
+                    u.entity("c12res:e")
+                except Exception:
+                    pass
+                if observable_doc(d) != mid:
+                    self.fail(idx, "changing the bundle bundle.unified() returned changed the source document", doc=di, bundle=bi)
+
     def finish(self, ops):
+        if len(ops) % 3 == 0:
+            self.bundle_unified(len(ops))
         if len(ops) % 7 == 0:
             self.subclass_documents(len(ops))
         # record.copy(): an equal record that shares no mutable state with its source
